@@ -207,6 +207,15 @@ ChgJ(n) == ((n - 1) % 4) + 1
 WidenQ(l, n) == Widen(l, MaskSet(n - 1))
 ChangeQ(l, n) == LET e == Elements[ChgI(n)] IN
                  [Widen(l, MaskSet(ChangeMask(ChgI(n), ChgJ(n))) \ {e}) EXCEPT ![e] = Other(l[e], ChgK(n))]
+(* a neighbourhood: the device itself and sibling devices that differ from it in ONE specified element (another value, *)
+(* or the same value in the other letter case); every member is used as the published location AND as the filter       *)
+(* location over the scopes of the whole neighbourhood (one service per member, absent element: sibling = the device)   *)
+NP == 13
+PopLoc(l, s) == IF s = 1 THEN l
+                ELSE LET i == (s - 2) \div 2 + 1
+                         k == IF (s - 2) % 2 = 0 THEN 1 ELSE 3
+                         e == Elements[i]
+                     IN IF l[e] = <<>> THEN l ELSE [l EXCEPT ![e] = Other(l[e], k)]
 \* plan as data for the harness: <<mask, element index, other-value index>>
 ChangePlan == [n \in 1..NC |-> <<ChangeMask(ChgI(n), ChgJ(n)), ChgI(n), ChgK(n)>>]
 Others(l) == [i \in 1..6 |-> [k \in 1..4 |-> Other(l[Elements[i]], k)]]
@@ -224,6 +233,7 @@ RoundTripLaw == \A v \in Variants : LET s == Scope(loc, v) IN
                                      /\ {s[i] : i \in 1..Len(s)} \subseteq 33..126
 WidenLaw == \A n \in 1..NW : Inside(loc, WidenQ(loc, n))
 ChangeLaw == \A n \in 1..NC : ~Inside(loc, ChangeQ(loc, n))
+                /\ \A s, t \in 1..NP : Inside(PopLoc(loc, t), PopLoc(loc, s)) = (PopLoc(loc, t) = PopLoc(loc, s))
 PresenceLaw == \A i \in 1..6 : (loc[Elements[i]] # <<>>) = Bit(case.pat, i)
 
 (* ------------------------------------------------------------------ domain 2: foreign scopes *)
